@@ -10,16 +10,28 @@ From Coq Require Import ZArith List Bool.
 Import ListNotations.
 From V Require Import Model.Val Model.Graph Model.Reads Proofs.ReadsP.
 
+(* by definition of Reads.step: a read step copies the state component, so this holds by construction of the model
+   (see the header: the real content of C11 is the byte comparison on the implementation) *)
 Theorem reads_preserve_state : forall frs rs, fst (session frs rs) = frs.
 Proof. exact reads_pure. Qed.
 Print Assumptions reads_preserve_state.
 
+(* by definition of Reads.step / session: each answer is eval of the (unchanged) initial state *)
 Theorem reads_any_order_any_repetition : forall frs rs, snd (session frs rs) = map (eval frs) rs.
 Proof. exact reads_order_independent. Qed.
 Print Assumptions reads_any_order_any_repetition.
 
+(* by definition of access_step: the Read branch returns the state unchanged *)
 Theorem only_pvmt_first_use_may_write : forall frs accs,
   Forall (fun a => match a with Read _ => True | PvmtFirstUse _ _ => False end) accs ->
   fold_left access_step accs (ROk frs) = ROk frs.
 Proof. exact accesses_without_pvmt_pure. Qed.
 Print Assumptions only_pvmt_first_use_may_write.
+(* hypothesis satisfiable by a two-read session; and it is needed: a PVMT first use does change the state *)
+Example only_pvmt_first_use_may_write_hyps_sat :
+  Forall (fun a => match a with Read _ => True | PvmtFirstUse _ _ => False end) [Read (RByUuid 42); Read (RSearch [100; 101])].
+Proof. repeat constructor. Qed.
+Example pvmt_first_use_writes :
+  let fr := mkFrag 0 Semantic [] empty_index in
+  fold_left access_step [Read (RByUuid 42); PvmtFirstUse 0 [mkNode 7 None (Some 100) [42] [42] None]] (ROk [fr]) <> ROk [fr].
+Proof. vm_compute. discriminate. Qed.
